@@ -860,7 +860,7 @@ fn main() -> std::process::ExitCode {
         "C04",
         "Constant methods, extensions, expression trees (depth<=5, all variants incl. AShr), constructor rebuilds of mutated trees, replace_scalar, sra and rotl at widths 1..300 (some to 4096) with boundary-biased operands and shift amounts {0,1,w-1,w,w+1,2w,2^w-1,>2^64}; oracle = Bv; non-trivial = not both operands zero (methods) / tree of >=3 nodes; distinct = (operator or operator set, width class, operand/amount classes)",
         Box::new(|_t: Tier| from_tape(260, decode)),
-        |t| t.pick(2_400_000, 100_000_000),
+        |t| t.pick(10_000_000, 200_000_000),
         check,
     );
     spec.render = render;
